@@ -16,7 +16,7 @@ INPUTS = ["1 + 1", "a = 7", "a = 7; a + 1", "b = a + roll d6", "roll d6", "sampl
 def gen(r, n):
     out = []
     for _ in range(n):
-        flags = f"comma={r.randint(0,1)} cf={r.randint(0,1)} rng={r.randint(0,1)} xr={r.choice([0,1,1,2])} custom={r.randint(0,1)}"
+        flags = f"comma={r.randint(0,1)} cf={r.randint(0,1)} rng={r.randint(0,1)} xr={r.choice([0,1,1,2])} custom={r.randint(0,1)} term={r.randint(0,1)}"
         setup = r.choice(SETUPS)
         inp = r.choice(INPUTS)
         if r.random() < 0.3:
@@ -38,7 +38,7 @@ def run(ctx):
         ctx.proof_failures.append({"file": "harness", "decl": "harness build (verif-hooks)", "line": 0, "msg": getattr(ctx, "harness_error", "")})
         return ctx.finish()
     r = ctx.rng
-    corpus = ["comma=0 cf=0 rng=1 xr=1 custom=1 || a = 5 ;; f = x: x + a || b = a + roll d6; 1 USD to EUR",
+    corpus = ["comma=0 cf=0 rng=1 xr=1 custom=1 || a = 5 ;; f = x: x + a || b = a + roll d6; 1 USD to EUR", "comma=0 cf=0 rng=1 xr=1 custom=0 term=1 || a = 5 || a + 1", "comma=1 cf=1 rng=0 xr=0 custom=1 term=1 || b = 2 || d6",
               "comma=1 cf=1 rng=1 xr=2 custom=0 || a = 5 || a = 7; _ = 3; ans"]
     cases = corpus + gen(r, 250 if quick else 8000)
     t0 = time.time()
@@ -85,7 +85,7 @@ def run(ctx):
         if m.strip() != got.strip():
             dist["filter_mismatch"] += 1
             ctx.model_disagreements.append({"stream": "previews", "input": c, "impl": f"prefix={pre} raw={raw} preview={got}", "model": m})
-    ctx.record_stream("previews", "contexts built from flag combinations (decimal comma, coulomb/farad mode, rng present/absent, exchange handler present/absent/failing, "
+    ctx.record_stream("previews", "contexts built from flag combinations (decimal comma, coulomb/farad mode, terminal / plain output mode, rng present/absent, exchange handler present/absent/failing, "
                       "custom units) + setup statements; every prefix of the input previewed uninterrupted and with the interrupt firing at call 0/1/3/17/200; observable "
                       "state (13 probes incl. _/ans/settings/custom units), handler probes (roll d6, 1 USD to EUR) and callback counters compared before/after; each preview "
                       "result compared with the model's filter applied to the raw evaluation on an identical handler-less context",
